@@ -29,7 +29,7 @@ func init() {
 		Rule: "per case one invocation of the freshly built command on a generated directory tree (nested and empty directories, XML/HTML/JSON files from the document generators, malformed files, unknown extensions, dangling symlinks, a directory named like a file) with a flag set over -a -m -n -r -t -s -v -u -e and an expression of one of the four result types; also stdin mode; " +
 			"oracle: stdout must equal, file by file in walk order, the records the monitor computes through the library API on the same bytes with the same decoder options and bindings (nothing for an empty node-set, first node's string-value, one record per node with -a, 'path: ' prefix unless -n or stdin); with -m every record must be one line and, wrapped in a dummy element, must re-parse (by the monitor's own encoding/xml reader) to a tree equal to the selected abstract subtree on expanded names, attribute multisets, merged text, comments and PIs; type selection by -t or the platform media type of the extension as computed by the monitor; directories only with -r; every unreadable, undetectable or unparsable input must produce a stderr line naming it and leave the other files' output unchanged. distinct_nontrivial = distinct (flag set, result type, file-kind mix) with non-empty stdout",
 		Assumptions: []string{"stderr is checked for presence and attribution of a diagnostic, not for wording", "attribute and namespace result nodes are printed as processing instructions by design with -m and are only checked to be single-line", "running as root: unreadable files are produced with dangling symlinks"},
-		NCases:      func(tier string) int { return map[string]int{"quick": 1500, "thorough": 40000}[tier] },
+		NCases:      func(tier string) int { return map[string]int{"quick": 15000, "thorough": 500000}[tier] },
 		Case:        c20Case,
 		Pre:         c20Known,
 	})
@@ -532,10 +532,28 @@ func c20CheckXMLRecord(body string, node xsel.Cursor, m *bridge.Map) (string, st
 		if n.Kind == adoc.Elem && !xmlNameOK(n.Local) {
 			hasHash = true
 		}
+		for _, a := range n.Attrs {
+			if !xmlNameOK(a.Local) {
+				hasHash = true
+			}
+		}
 	}
 	for _, n := range want.All {
 		if n.Kind == adoc.Comment && (strings.Contains(n.Value, "--") || strings.HasSuffix(n.Value, "-")) {
 			known = "cli-m-comment-dashes"
+		}
+	}
+	for _, n := range want.All {
+		vals := []string{n.Value}
+		for _, a := range n.Attrs {
+			vals = append(vals, a.Value)
+		}
+		for _, v := range vals {
+			for _, c := range v {
+				if (c < 0x20 && c != '\t' && c != '\n' && c != '\r') || c == 0xFFFE || c == 0xFFFF {
+					known = "cli-m-control-chars"
+				}
+			}
 		}
 	}
 	if hasNL {
@@ -628,6 +646,7 @@ func c20Known(r *evid.Run, tier string) {
 	for _, w := range []wit{
 		{"cli-m-newline-in-comment-pi", "w.xml", "<r><!--a\nb--></r>", "//comment()"},
 		{"cli-m-hash-names", "w.json", `{"a":[1]}`, "//a"},
+		{"cli-m-control-chars", "c.json", `{"a":"x\u0001y"}`, "//a"},
 		{"cli-m-comment-dashes", "w.html", "<!DOCTYPE html><p><!--a--b--></p>", "//comment()"},
 		{"cli-m-unserialisable", "u.xml", `<r xmlns:z="http://x.y/z" id="1" z:k="v"><a/></r>`, "//@*|//a"},
 	} {
